@@ -14,6 +14,7 @@ import SympdeModel.Model.Lower
 import SympdeModel.Sem.DenG
 import SympdeModel.Gen.LeafThms
 import SympdeModel.Lemmas.LowerInd
+import SympdeModel.Lemmas.LowerXInd
 namespace Sympde.Lower
 open E
 
@@ -97,12 +98,14 @@ theorem unknown_class_refused (d : Nat) (cname : String) (args : List E) (h : cl
   products of two non-scalar factors (sympy's matrix product is not the entry-wise product `denG`
   gives to `mul`), dimensions other than 1, 2, 3.
 
-  **Totality** ("on the supported operator fragment lowering does not fail"): `lower_total` —
-  in dimension 2 and 3 the dispatcher returns a value for every expression of the fragment
+  **Totality** ("on the supported operator fragment lowering does not fail"): `lower_total_all` —
+  in dimension 1, 2 and 3 the dispatcher returns a value for every expression of the fragment
   (every covered class exists and returns a formula, its derivative nodes are never refused on
-  lowered arguments, sums and products meet values of matching shapes).  In dimension 1 this is
-  FALSE for the code as it is (open finding C01-1d-mixed): `lower_total_fails_1d` is the
-  counterexample `grad(h) + F`; `lower_sound_total` is the combined statement for d = 2, 3.
+  lowered arguments, sums and products meet values of matching shapes).  In dimension 1 this became
+  true with the repair of finding C01-1d-mixed (`fix:` commit in evaluation.py, `Add` branch: a
+  scalar form and a 1×1 matrix are added as 1×1 matrices; mirrored in `addV`): the former
+  counterexample `grad(h) + F` is now the example `lower_1d_mixed_fixed`.  `lower_total` (d = 2, 3)
+  is kept as the special case; `lower_sound_total_all` is the combined statement.
 -/
 
 /-- the covered fragment: the generic expressions `ty` gives a type to -/
@@ -163,18 +166,37 @@ theorem lower_sound_total (S : DRing K) (d : Nat) (hd : d = 2 ∨ d = 3) (lg : B
   exact ⟨t, ht, lower_ty_shape d (Or.inr hd) lg e τ t hτ ht,
     lower_sound S d (Or.inr hd) lg e t (by simp [WT, hτ]) ht⟩
 
+/-- **Totality (d = 1, 2, 3).**  On the covered fragment lowering does not fail — in dimension 1
+    since the repair of the `Add` branch (finding C01-1d-mixed, fixed). -/
+theorem lower_total_all (d : Nat) (hd : d = 1 ∨ d = 2 ∨ d = 3) (lg : Bool) (e : E)
+    (hwt : WT d e = true) : ∃ t, lower d lg e = .ok t := by
+  unfold WT at hwt
+  cases hτ : ty d e with
+  | none => rw [hτ] at hwt; cases hwt
+  | some τ => exact lower_ty_total_all d hd lg e τ hτ
+
+/-- value, shape and totality together, in dimension 1, 2 and 3 -/
+theorem lower_sound_total_all (S : DRing K) (d : Nat) (hd : d = 1 ∨ d = 2 ∨ d = 3) (lg : Bool)
+    (e : E) (τ : Ty) (hτ : ty d e = some τ) :
+    ∃ t, lower d lg e = .ok t ∧ hasShape d τ t = true ∧
+      ∀ i j, Comp d e i j → den S t i j = denG S d lg e i j := by
+  obtain ⟨t, ht⟩ := lower_ty_total_all d hd lg e τ hτ
+  exact ⟨t, ht, lower_ty_shape d hd lg e τ t hτ ht,
+    lower_sound S d hd lg e t (by simp [WT, hτ]) ht⟩
+
 set_option maxRecDepth 100000 in
-/-- **Counterexample in dimension 1** (open finding C01-1d-mixed, key `corpus:1d grad(h)+F`):
-    the full statement "for every d ∈ {1,2,3} lowering does not fail on the fragment" is false —
-    `grad(h) + F` is well typed (a vector) but the gradient of a scalar is lowered to the bare
-    scalar `dx(h)` while `F` is lowered to the 1×1 matrix `[[F[0]]]`, and scalar + matrix is a
-    `TypeError`.  (`lower_sound` still holds in 1D: it speaks of the values that are returned.) -/
-theorem lower_total_fails_1d (lg : Bool) :
-    WT 1 (add [op1 .grad (sf "h" .h1), vf "F" .h1]) = true ∧
-    lower 1 lg (add [op1 .grad (sf "h" .h1), vf "F" .h1]) = .error .typeError := by
-  constructor
-  · decide
-  · cases lg <;> rfl
+/-- the witness of the former open finding C01-1d-mixed (key `corpus:1d grad(h)+F`): in 1D the
+    gradient of a scalar is lowered to the bare scalar `dx(h)` while `F` is lowered to the 1×1 matrix
+    `[[F[0]]]`; their sum was a `TypeError`, it is now the 1×1 matrix `[[dx(h) + F[0]]]`, whose
+    component is the classical one -/
+theorem lower_1d_mixed_fixed (S : DRing K) (lg : Bool) :
+    ∃ t, lower 1 lg (add [op1 .grad (sf "h" .h1), vf "F" .h1]) = .ok t ∧
+      den S t 0 0 = Di S lg 0 (S.sf "h") + S.vf "F" 0 := by
+  obtain ⟨t, ht⟩ := lower_total_all 1 (Or.inl rfl) lg (add [op1 .grad (sf "h" .h1), vf "F" .h1])
+    (by decide)
+  refine ⟨t, ht, ?_⟩
+  rw [lower_sound S 1 (Or.inl rfl) lg _ t (by decide) ht 0 0 (show 0 < 1 ∧ 0 = 0 from ⟨by decide, rfl⟩)]
+  simp [denG, denGSum, rank]
 
 /-- the operator applications directly on atoms, for every (class, signature) pair of the
     generated index, are instances: e.g. the gradient of a scalar function -/
@@ -214,5 +236,183 @@ example (S : DRing K) :
   refine ⟨_, h, fun i j => ?_⟩
   rw [lower_sound S 2 (by decide) false _ _ (by decide) h i j (show True from trivial)]
   simp [denG, rank, DRing.sumN, Di, Coord.ofIdx]
+
+/-! ### the fragment with scalar powers, quotients and elementary functions
+
+  `WT' d e` (decidable: `tyk d e 0`, Lemmas/LowerXInd.lean) extends `WT d e` by the scalar nodes
+
+  * `pow b e` — `b`, `e` scalar expressions of the fragment (so: integer powers `u**2`, quotients
+    `f / g = f * g**(-1)`, square roots and other rational powers `u**(1/2)`, variable exponents
+    `u**v`); the base may contain operators (`(1 + dot(grad v, grad v))**(-1)`), the exponent is a
+    number literal or any expression that is not *headed* by an operator (`headStable`: then the
+    lowered exponent is an integer literal exactly when the exponent itself is one);
+  * `f(a)` for an elementary function — `a` any scalar expression of the fragment, operators
+    included (`sin(div F)`, `exp(dot(grad v, grad v))`, `Abs(div F)`): since the `fix:` commit
+    (finding C01-function-argument-not-lowered) the dispatcher lowers the argument of every
+    elementary function, before it only did so for `Abs` and `sin(div F)` kept `Div(F)` inside.
+    If an operator differentiates `f(a)`, `f` must be one of sin cos exp log sinh cosh tan (the
+    derivative table of the model of `sympy.diff`; so `Abs` is never differentiated).  When the
+    lowered argument contains a *field* (`sin(u)`, `exp(u)`), the coordinate operators refuse to
+    differentiate it (`NotImplementedError`, as the code does): such trees are in the fragment, and
+    the theorem — which speaks of the values that ARE returned — holds for them vacuously
+    (example below: `laplace(exp(u))`); when it is a coordinate expression (`sin(x)`,
+    `exp(x*y)`), a value is returned and the theorem applies.
+
+  The typing carries a *derivative budget* `k` (how many derivatives will still be applied to the
+  lowered value: `grad`, `div`, `curl`, `rot`, `bracket` add 1 to the budget of their arguments,
+  `laplace`, `hessian` add 2, `dot`, `cross`, `inner` add 0; operators nest to any depth).
+
+  **Hypotheses of `lower_sound_ext`** (both are genuinely needed; neither is needed on `WT`):
+  * `T : FnTable S` — the ring interprets sin, cos, exp, log, sinh, cosh, tan with their classical
+    derivatives (as in C05);
+  * `NDG S d lg e 0` — non-degeneracy: for every power `b ^ e'` that ends up under `k` derivatives,
+    `e'` is a literal `n ≥ k` (then no negative exponent is ever reached), or `k = 0`, or `b` is
+    invertible at every component (with inverse `S.inv`); the argument of a differentiated `log`
+    is invertible; `tan a` differentiated more than three times is invertible.  So `grad(u**2)`,
+    `laplace(u**2)`, `div(u**3 * F)` need nothing, `grad(f/g)` needs `g` invertible,
+    `grad(sqrt(u))` needs `u` invertible — exactly the classical side conditions.  The model of
+    the product and power rules is exact without them only as long as no `b**(-1)` is differentiated.
+
+  Still excluded: vector- or matrix-valued bases/exponents/function arguments; exponents headed by
+  an operator (`u**div(F)`) or by a one-term sum/product; `Abs` and functions outside the table
+  under a derivative; `minus`/`plus`/…, input `mat`/`tup`/`pd` nodes, `outer`, `convect`, products
+  of two non-scalars (as for `WT`).
+  Totality is NOT claimed on `WT'` (`dx(sin(u))` is refused): `lower_total_all` stays on `WT`.
+-/
+
+/-- the extended fragment -/
+def WT' (d : Nat) (e : E) : Bool := (tyk d e 0).isSome
+
+/-- the components of the value of an expression of the extended fragment -/
+def Comp' (d : Nat) (e : E) (i j : Nat) : Prop :=
+  match tyk d e 0 with
+  | some .s => True
+  | some .v => i < d ∧ j = 0
+  | some .m => i < d ∧ j < d
+  | none => False
+
+/-- **C01 on the fragment with powers, quotients and elementary functions.**  Whenever lowering
+    returns `t`, `t` denotes, component by component, the classical meaning of `e`. -/
+theorem lower_sound_ext (S : DRing K) (T : FnTable S) (d : Nat) (hd : d = 1 ∨ d = 2 ∨ d = 3) (lg : Bool)
+    (e t : E) (hwt : WT' d e = true) (hnd : NDG S d lg e 0) (h : lower d lg e = .ok t) :
+    ∀ i j, Comp' d e i j → den S t i j = denG S d lg e i j := by
+  intro i j hc
+  unfold WT' at hwt
+  cases hτ : tyk d e 0 with
+  | none => rw [hτ] at hwt; cases hwt
+  | some τ =>
+    have g := lower_tyk_sound S T d hd lg e 0 τ t hτ hnd h
+    unfold Comp' at hc
+    rw [hτ] at hc
+    cases τ with
+    | s => exact GoodX_scalar S d (by omega) lg 0 e t hτ g i j
+    | v => exact g.2.2 i j hc
+    | m => exact g.2.2 i j hc
+
+/-- … and the lowered value has the shape of the type (over the extended scalar forms) -/
+theorem lower_shape_ext (S : DRing K) (T : FnTable S) (d : Nat) (hd : d = 1 ∨ d = 2 ∨ d = 3) (lg : Bool)
+    (e t : E) (τ : Ty) (hτ : tyk d e 0 = some τ) (hnd : NDG S d lg e 0) (h : lower d lg e = .ok t) :
+    hasShapeX d τ t = true :=
+  (lower_tyk_sound S T d hd lg e 0 τ t hτ hnd h).1
+
+/-- the extended fragment contains the old one, with the same types and components, and there the
+    non-degeneracy hypothesis is void -/
+theorem WT_ext_of_WT (d : Nat) (e : E) (h : WT d e = true) : WT' d e = true := by
+  unfold WT at h
+  cases hτ : ty d e with
+  | none => rw [hτ] at h; cases h
+  | some τ => simp [WT', tyk_of_ty d e τ hτ 0]
+
+theorem NDG_of_WT (S : DRing K) (d : Nat) (lg : Bool) (e : E) (h : WT d e = true) : NDG S d lg e 0 := by
+  unfold WT at h
+  cases hτ : ty d e with
+  | none => rw [hτ] at h; cases h
+  | some τ => exact NDG_of_ty S d lg e τ hτ 0
+
+/-! non-vacuity of the extended theorem -/
+
+/-- `grad(u**2 / (1 + dot(grad v, grad v)))` as sympy holds it -/
+def exQuot : E :=
+  op1 .grad (mul [pow (sf "u" .h1) (num 2 1),
+    pow (add [num 1 1, op2 .dot (op1 .grad (sf "v" .h1)) (op1 .grad (sf "v" .h1))]) (num (-1) 1)])
+
+example : WT' 2 exQuot = true := by decide
+example : WT 2 exQuot = false := by decide
+example : WT' 2 (mul [fn "sin" (sym "x"), op1 .div (vf "F" .hdiv)]) = true := by decide
+example : WT' 2 (op1 .laplace (fn "exp" (mul [sym "x", sym "y"]))) = true := by decide
+example : WT' 2 (op1 .grad (pow (sf "u" .h1) (num 1 2))) = true := by decide          -- grad(sqrt(u))
+example : WT' 3 (op1 .div (mul [pow (sf "u" .h1) (sf "v" .h1), vf "F" .hdiv])) = true := by decide
+example : WT' 2 (fn "sin" (op1 .div (vf "F" .hdiv))) = true := by decide                  -- sin(div F)
+example : WT' 2 (op1 .grad (fn "sin" (op1 .div (vf "F" .hdiv)))) = true := by decide     -- refused by dx
+example : WT' 2 (op1 .grad (fn "Abs" (sf "u" .h1))) = false := by decide
+
+set_option maxRecDepth 100000 in
+/-- the quotient example: lowering returns a value, the hypothesis reduces to the invertibility of
+    the denominator `1 + |grad v|²` (nothing is asked of `u`), and the components are the classical
+    gradient of the quotient -/
+example (S : DRing K) (T : FnTable S)
+    (hinv : InvG S 2 false
+      (add [num 1 1, op2 .dot (op1 .grad (sf "v" .h1)) (op1 .grad (sf "v" .h1))])) :
+    ∃ t, lower 2 false exQuot = .ok t ∧
+      ∀ i, i < 2 → den S t i 0 = denG S 2 false exQuot i 0 := by
+  have hok : (lower 2 false exQuot).toOption.isSome = true := by rfl
+  cases h : lower 2 false exQuot with
+  | error err => rw [h] at hok; cases hok
+  | ok t =>
+    refine ⟨t, rfl, fun i hi => ?_⟩
+    refine lower_sound_ext S T 2 (by decide) false _ _ (by decide) ?_ h i 0
+      (show i < 2 ∧ 0 = 0 from ⟨hi, rfl⟩)
+    simp only [exQuot, NDG, NDGList, powCondG, PD.intLit, ord1]
+    exact ⟨⟨Or.inl (by decide), trivial, trivial⟩, ⟨Or.inr hinv, ⟨trivial, ⟨trivial, trivial⟩, trivial⟩,
+      trivial⟩, trivial⟩
+
+set_option maxRecDepth 100000 in
+/-- `sin(x) * div(F)` in 2D: no side condition at all -/
+example (S : DRing K) (T : FnTable S) :
+    ∃ t, lower 2 false (mul [fn "sin" (sym "x"), op1 .div (vf "F" .hdiv)]) = .ok t ∧
+      ∀ i j, den S t i j = S.fn "sin" (S.sym "x") * (S.D .x (S.vf "F" 0) + S.D .y (S.vf "F" 1)) := by
+  have hok : (lower 2 false (mul [fn "sin" (sym "x"), op1 .div (vf "F" .hdiv)])).toOption.isSome
+      = true := by rfl
+  cases h : lower 2 false (mul [fn "sin" (sym "x"), op1 .div (vf "F" .hdiv)]) with
+  | error err => rw [h] at hok; cases hok
+  | ok t =>
+    refine ⟨t, rfl, fun i j => ?_⟩
+    rw [lower_sound_ext S T 2 (by decide) false _ _ (by decide)
+      (by simp [NDG, NDGList, fnCondG]) h i j (show True from trivial)]
+    simp [denG, denGProd, rank, DRing.sumN, Di, Coord.ofIdx]
+
+set_option maxRecDepth 100000 in
+/-- `sin(div F)` (the witness of finding C01-function-argument-not-lowered, fixed): the argument is
+    lowered, the result is in partial-derivative form and has the classical value -/
+example (S : DRing K) (T : FnTable S) :
+    lower 2 false (fn "sin" (op1 .div (vf "F" .hdiv)))
+      = .ok (fn "sin" (add [pd .x (idx (vf "F" .hdiv) 0), pd .y (idx (vf "F" .hdiv) 1)])) ∧
+    ∀ t, lower 2 false (fn "sin" (op1 .div (vf "F" .hdiv))) = .ok t →
+      ∀ i j, den S t i j = S.fn "sin" (S.D .x (S.vf "F" 0) + S.D .y (S.vf "F" 1)) := by
+  refine ⟨rfl, fun t h i j => ?_⟩
+  rw [lower_sound_ext S T 2 (by decide) false _ _ (by decide)
+    (by simp [NDG, fnCondG]) h i j (show True from trivial)]
+  simp [denG, rank, DRing.sumN, Di, Coord.ofIdx]
+
+set_option maxRecDepth 100000 in
+/-- `laplace(exp(x*y))`: two nested derivatives of an elementary function of the coordinates -/
+example (S : DRing K) (T : FnTable S) :
+    ∃ t, lower 2 false (op1 .laplace (fn "exp" (mul [sym "x", sym "y"]))) = .ok t ∧
+      ∀ i j, den S t i j = denG S 2 false (op1 .laplace (fn "exp" (mul [sym "x", sym "y"]))) i j := by
+  have hok : (lower 2 false (op1 .laplace (fn "exp" (mul [sym "x", sym "y"])))).toOption.isSome
+      = true := by rfl
+  cases h : lower 2 false (op1 .laplace (fn "exp" (mul [sym "x", sym "y"]))) with
+  | error err => rw [h] at hok; cases hok
+  | ok t =>
+    refine ⟨t, rfl, fun i j => ?_⟩
+    exact lower_sound_ext S T 2 (by decide) false _ _ (by decide)
+      (by simp [NDG, NDGList, fnCondG, ord1, knownFn]) h i j (show True from trivial)
+
+set_option maxRecDepth 100000 in
+/-- `laplace(exp(u))` is in the fragment, but the coordinate operators refuse `dx(exp(u))`
+    (as the code does): no value is returned and `lower_sound_ext` says nothing — this is why totality
+    is not claimed on `WT'` -/
+example : WT' 2 (op1 .laplace (fn "exp" (sf "u" .h1))) = true ∧
+    lower 2 false (op1 .laplace (fn "exp" (sf "u" .h1))) = .error .notImplemented := ⟨by decide, rfl⟩
 
 end Sympde.Lower
